@@ -53,6 +53,14 @@ CaseOf(g, ins, feat) ==
 \* leaves behind must not weaken the checks of the next one
 CaseAfterEmptyCall(g, ins, feat) ==
    [CaseOf(g, ins, feat \o <<"after_empty_call">>) EXCEPT !.x.calls = <<CallJ(g, <<>>), CallJ(g, ins)>>]
+\* a conforming call, then the caller reshapes the SAME tensor object in place (Interp!CallerReshape) and passes it again: the
+\* signature is enforced on every call, whatever was accepted before
+CaseReshapedBetweenCalls(g, nm, good, sh2, feat) ==
+   LET t1 == Iota("f32", good, 0) t2 == T("f32", sh2, t1.data) IN
+   [CaseOf(g, [n \in {nm} |-> t1], feat \o <<"reshaped_between_calls">>) EXCEPT
+       !.x.calls = <<CallJ(g, [n \in {nm} |-> t1]),
+                     [ins |-> <<>>, reuse |-> [n \in {nm} |-> [call |-> 1, kind |-> "in", name |-> nm]], holds |-> [n \in {nm} |-> t2],
+                      allowed |-> Allowed_(g, [n \in {nm} |-> t2])]>>]
 Supply(names, shapes) == [nm \in names |-> Iota("f32", shapes[nm], 0)]
 
 \* one input: every declared signature x every supplied variant; several inputs: one input varied at a time, names missing / extra / shadowed
@@ -60,6 +68,8 @@ One(d) ==
    LET g == GraphOf(<<d>>, {}) IN
    /\ \A sh \in Variants(d) : P(CaseOf(g, Supply({"x1"}, [nm \in {"x1"} |-> sh]), <<"one_input", "rank" \o ToString(Len(d))>>))
    /\ P(CaseOf(g, <<>>, <<"one_input", "missing">>))
+   /\ \A sh2 \in {s2 \in Variants(d) : Size(s2) = Size(ConformShape(d)) /\ s2 # ConformShape(d)} \cup {<<Size(ConformShape(d))>>, <<1>> \o ConformShape(d)} :
+         P(CaseReshapedBetweenCalls(g, "x1", ConformShape(d), sh2, <<"one_input">>))
    /\ P(CaseOf(g, [nm \in {"x1"} |-> Nil], <<"one_input", "nil_tensor">>))
    /\ P(CaseOf(g, [nm \in {"x1", "extra"} |-> IF nm = "extra" THEN Nil ELSE Iota("f32", ConformShape(d), 0)], <<"one_input", "extra_name_nil">>))
    /\ P(CaseOf(g, Supply({"other"}, [nm \in {"other"} |-> ConformShape(d)]), <<"one_input", "wrong_name">>))
@@ -69,6 +79,9 @@ One(d) ==
       /\ P(CaseOf(gs, [nm \in {"x1"} |-> Nil], <<"shadowed", "nil_tensor">>))
       /\ P(CaseOf(gs, Supply({"x1"}, [nm \in {"x1"} |-> ConformShape(d)]), <<"shadowed", "supplied">>))
       /\ P(CaseOf(gs, Supply({"x1"}, [nm \in {"x1"} |-> ConformShape(d) \o <<2>>]), <<"shadowed", "supplied_other_rank">>))
+      \* the caller's tensor takes precedence over the default and is checked against the DECLARED dimensions, not the default's shape
+      /\ \A i \in 1..Len(d) : \A v \in {1, 7} :
+            P(CaseOf(gs, Supply({"x1"}, [nm \in {"x1"} |-> [ConformShape(d) EXCEPT ![i] = v]]), <<"shadowed", "supplied_other_extent">>))
 Many(dims) ==
    LET n == Len(dims) g == GraphOf(dims, {}) names == {InName(i) : i \in 1..n}
        good == [nm \in names |-> ConformShape(dims[CHOOSE i \in 1..n : InName(i) = nm])] IN
